@@ -27,6 +27,7 @@ type Obligation struct {
 	// results
 	Verdict string // unsat (discharged), sat (refuted), unknown
 	SolverNotes string
+	CandidateModel string // model of the quantifier-free weakening (not a proof of anything; guides replay)
 	Solver  string
 	TimeS   float64
 	Model   string
@@ -92,6 +93,7 @@ func (s *State) heapGet(name string, srt Sort) *T {
 	// entry version: shared symbol name_0 so that old() state agrees
 	t := Sym(name+"!0", srt)
 	s.Heap[name] = t
+	s.X.wfArray(name, t)
 	// also record in the entry snapshot, if any
 	if s.X != nil && s.X.entry != nil && s != s.X.entry {
 		if _, ok := s.X.entry.Heap[name]; !ok {
@@ -113,6 +115,7 @@ func (s *State) havocHeap(name string) {
 		return
 	}
 	s.Heap[name] = s.X.fresh(name, srt)
+	s.X.wfArray(name, s.Heap[name])
 	s.AsOf[name] = s.Heap["Alloc"]
 }
 
@@ -175,6 +178,50 @@ type Exec struct {
 func (x *Exec) fresh(base string, s Sort) *T {
 	x.freshCtr++
 	return Sym(fmt.Sprintf("%s!%d", strings.TrimSuffix(base, "!0"), x.freshCtr), s)
+}
+
+// wfArray records the heap well-formedness fact that slice lengths stored anywhere are non-negative.
+// The facts are kept per array version and added to every obligation that mentions the version.
+func (x *Exec) wfArray(name string, t *T) {
+	if strings.HasSuffix(name, "_base") && strings.HasSuffix(t.Op, "!0") {
+		// the entry heap is closed under allocation: slices stored anywhere at entry have nil or entry-allocated backing arrays
+		x.prog.mu.Lock()
+		if _, ok := x.prog.defAxioms["wf:"+t.Op]; !ok {
+			r := Sym("r!wf", SInt)
+			a0 := Sym("Alloc!0", ArrSort(SInt, SBool))
+			_, vs := t.S.ArrParts()
+			if vs.IsArray() {
+				ks, _ := vs.ArrParts()
+				k := Sym("k!wf", ks)
+				sel := Select(Select(t, r), k)
+				x.prog.defAxioms["wf:"+t.Op] = Forall([]*T{r, k}, pattern(Or(Eq(sel, IntLit(0)), Select(a0, sel)), sel))
+			} else {
+				sel := Select(t, r)
+				x.prog.defAxioms["wf:"+t.Op] = Forall([]*T{r}, pattern(Or(Eq(sel, IntLit(0)), Select(a0, sel)), sel))
+			}
+		}
+		x.prog.mu.Unlock()
+		return
+	}
+	if !strings.HasSuffix(name, "_len") {
+		return
+	}
+	x.prog.mu.Lock()
+	defer x.prog.mu.Unlock()
+	if _, ok := x.prog.defAxioms["wf:"+t.Op]; ok {
+		return
+	}
+	r := Sym("r!wf", SInt)
+	_, vs := t.S.ArrParts()
+	if vs.IsArray() {
+		ks, _ := vs.ArrParts()
+		k := Sym("k!wf", ks)
+		sel := Select(Select(t, r), k)
+		x.prog.defAxioms["wf:"+t.Op] = Forall([]*T{r, k}, pattern(Le(IntLit(0), sel), sel))
+	} else {
+		sel := Select(t, r)
+		x.prog.defAxioms["wf:"+t.Op] = Forall([]*T{r}, pattern(Le(IntLit(0), sel), sel))
+	}
 }
 
 func (x *Exec) noteAbstraction(s string) {
